@@ -1791,7 +1791,8 @@ impl<'a, 'b> InternalDelphiLogicalLineParser<'a, 'b> {
             }
             match prev_token_type {
                 Some(TT::Op(OK::RBrack | OK::RParen)) => {}
-                Some(TT::Keyword(KK::Type | KK::Of)) => break,
+                // `TFoo = class helper for Platform`
+                Some(TT::Keyword(KK::Type | KK::Of | KK::For)) => break,
                 // The word after `absolute` or after a property specifier is a name,
                 // e.g., `Foo: Integer absolute Platform;`, `property Foo: Bar read Deprecated;`
                 Some(
